@@ -48,7 +48,8 @@ Definition upd2 {A : Type} (f : nat -> nat -> A) (a b : nat) (v : A) : nat -> na
 (* replies that carry no authority: rejections and heartbeat responses *)
 Definition harmless (m : msg) : bool :=
   match m_type m with
-  | MsgVoteResp | MsgAppResp => m_reject m
+  | MsgVoteResp => m_reject m
+  | MsgAppResp => m_reject m || (m_index m =? 0)      (* an empty acknowledgement acknowledges nothing *)
   | MsgHeartbeatResp => true
   | _ => false
   end.
@@ -149,6 +150,10 @@ Section Micro.
   | M_selfack : forall id k,
       n_role (nodes s id) = Leader -> k <= length (n_log (nodes s id)) ->
       mstep s (set_node s id (set_match (upd (n_match (nodes s id)) id k) (nodes s id)))
+  (* the vote tally of a node that is not a candidate is scratch space (pre-votes) *)
+  | M_setvotes : forall id vs,
+      n_role (nodes s id) <> Candidate ->
+      mstep s (set_node s id (set_votes vs (nodes s id)))
   (* progress of a peer forgotten (the peer left the configuration; Match restarts at 0) *)
   | M_lower : forall id f,
       (forall x, f x <= n_match (nodes s id) x) ->
